@@ -54,7 +54,7 @@ var guardedTable = []guardedEntry{
 }
 
 func c04(p *core.Prog, r *core.Report) {
-	r.Explain = "Decides necessary lock and ownership discipline (not schedules): (R1) every read of a field in the guarded-by table happens with its mutex held (R or W) and every write with the write lock, on every path, with locks followed through wrappers, helpers whose callers all hold the lock, and address getters; fields written once before the reading goroutine is started are checked for exactly that; shared (non-fresh) objects are not mutated while only a read lock is held; (R2) the message id counter is touched only through atomic Inc after one initial Store that precedes the reader/writer goroutines; (R3) an exchange is stored under an id only after a lookup miss for that id, both under the write lock, and a duplicate inbound id reaches the protocol-error path; (R4) a frame is delivered to the exchange looked up under the frame's own id; (R5) exactly one reader and one writer goroutine are started per connection and every delivery of peer frames to exchanges / relay send queues happens on the reader's call tree; (R6) the lock-order graph is acyclic. Frames already delivered to an exchange are received before the connection error is returned. A guarded map or slice header loaded under the lock is followed to its later iteration steps and element accesses; (R7) objects taken from a sync.Pool have every per-use field re-assigned (or the whole struct overwritten) before they are handed out, with a reviewed table for the frame. No header id read after the relay's re-stamp keys this connection's item table (interprocedural, through struct fields and func-typed fields); every blocking wait on an exchange has the error-latch arm, so the connection's reader is never parked beyond an exchange's life. No instruction reachable after a non-deferred sync.Pool.Put uses the object or a view of it."
+	r.Explain = "Decides necessary lock and ownership discipline (not schedules): (R1) every read of a field in the guarded-by table happens with its mutex held (R or W) and every write with the write lock, on every path, with locks followed through wrappers, helpers whose callers all hold the lock, and address getters; fields written once before the reading goroutine is started are checked for exactly that; shared (non-fresh) objects are not mutated while only a read lock is held; (R2) the message id counter is touched only through atomic Inc after one initial Store that precedes the reader/writer goroutines; (R3) an exchange is stored under an id only after a lookup miss for that id, both under the write lock, and a duplicate inbound id reaches the protocol-error path; (R4) a frame is delivered to the exchange looked up under the frame's own id; (R5) exactly one reader and one writer goroutine are started per connection and every delivery of peer frames to exchanges / relay send queues happens on the reader's call tree; (R6) the lock-order graph is acyclic. Frames already delivered to an exchange are received before the connection error is returned. A guarded map or slice header loaded under the lock is followed to its later iteration steps and element accesses; (R7) objects taken from a sync.Pool have every per-use field re-assigned (or the whole struct overwritten) before they are handed out, with a reviewed table for the frame. No header id read after the relay's re-stamp keys this connection's item table (interprocedural, through struct fields and func-typed fields); every blocking wait on an exchange has the error-latch arm, so the connection's reader is never parked beyond an exchange's life. No instruction reachable after a non-deferred sync.Pool.Put uses the object or a view of it. A fragment's frame is released only by the readers that own it; an exchange's context is not assigned inside a goroutine started after the exchange was registered."
 	r.NotDecided = "absence of data races on fields outside the table (this is a necessary condition, not a race detector); that responses match requests under every interleaving; fairness between calls."
 	r.Rule("C04-R1", "E4 lockset", 100, "guarded-by discipline for every access of every table field; no mutation under a read-only lock")
 	r.Rule("C04-R2", "E6 who-may-call", 2, "message ids allocated atomically")
